@@ -270,6 +270,10 @@ static void optional_case(const std::vector<Op> &ops, pbt::Ctx &ctx)
       case ASSIGN_VALUE:
         if (!m[a].exists)
           break;
+        if (op.c % 5 == 0 && m[a].has && !m[a].unspec) {
+          slot[a]->o = *slot[a]->o;  // the optional's own payload, by reference
+          break;
+        }
         if (op.b & 1) {
           T tmp = P::make(v);
           slot[a]->o = tmp;  // lvalue
